@@ -183,7 +183,10 @@ pub fn judge_w(c: &MixedCase) -> (Vec<(String, String, &'static str)>, bool) {
                     };
                     let (Some(i), Some(crate::specbin::Wire::V(w))) = (idx, col.values.get(k)) else { continue };
                     let Some(a) = alone.get(i).and_then(|x| x.as_ref()) else { continue };
-                    if !equivalent(a, w) {
+                    // the file must hold the DOM's value (C03); what rbx_binary's own reader makes of
+                    // it alone is accepted too (documented normalisations such as rotation snapping)
+                    let original = lookup(&c.values[i].0, &c.values[i].1);
+                    if !equivalent(&original, w) && !equivalent(a, w) {
                         out.push((
                             format!("mixed|{}|{}|spec-value", c.class, tag),
                             format!("instance {} of {:?}: the file stores {} for {}, the value reads back as {} from a file of its own", i, c.values, r(w), c.prop, r(a)),
@@ -203,9 +206,14 @@ pub fn cases(tier: Tier) -> Vec<MixedCase> {
     let mut out = Vec::new();
     let mut targets: Vec<(String, String)> = vec![("ZzUnknownClass".into(), "ZzMixed".into()), ("Folder".into(), "ZzMixed".into())];
     // declared numeric properties: a neighbouring numeric type on a declared column
-    for t in [VariantType::Int32, VariantType::Int64, VariantType::Float32, VariantType::Float64] {
+    for t in mixed_types() {
+        if group(t) == 0 {
+            continue;
+        }
         if let Some((c, p, _)) = crate::specdb::known_property_for(t) {
-            targets.push((c, p));
+            if !targets.contains(&(c.clone(), p.clone())) {
+                targets.push((c, p));
+            }
         }
     }
     for (ti, (class, prop)) in targets.iter().enumerate() {
@@ -215,7 +223,8 @@ pub fn cases(tier: Tier) -> Vec<MixedCase> {
                     continue;
                 }
                 let related = group(*a) != 0 && group(*a) == group(*b);
-                if ti >= 2 && !(related && matches!(group(*a), 1 | 2)) {
+                // declared properties: only values of the declared type's family
+                if ti >= 2 && !related {
                     continue;
                 }
                 let la = alphabet(*a, Codec::Binary, false);
